@@ -466,6 +466,32 @@ def gen_carriers(rng, n, k):
     return cases
 
 
+def gen_compressible(rng, n, with_lists=False):
+    """several MiB of one repeated value x zlib / gzip at levels 4, 7, 9 (a single 8 KiB block of the compressed
+    file then inflates to MiBs) x targets and carriers"""
+    cases = []
+    for i in range(n):
+        kind = ["bytes", "bytearray", "str", "bytes", "str", "bytearray"][i % 6]
+        if with_lists and i % 10 == 9:
+            kind = "list"                      # a million pickled zeros: slow in the pure-Python pickler, thorough tier only
+        codec = rng.choice(["zlib", "gzip"])
+        lvl = [4, 7, 9][i % 3]
+        form = rng.choice([{"t": "tuple", "v": [codec, lvl]}, {"t": "tuple", "v": [codec, lvl]}, {"t": "int", "v": lvl}])
+        c = {"mode": "roundtrip", "seed": rng.randrange(10 ** 9), "size": {"zeros": kind, "mib": rng.choice([5, 6, 8])},
+             "proto": rng.choice([2, 3, 4, 5, None]), "form": form}
+        way = rng.choice(["path", "pathlib", "raw", "bytesio", "tempfile", "pipe", "noname", "unbuffered", "fdopen"])
+        if way in ("path", "pathlib", "raw", "bytesio"):
+            c["target"] = {"k": way}
+            if way != "bytesio":
+                c["target"]["name"] = "zeros" + rng.choice([".pkl", ".gz", ".z", ""])
+            if way in ("path", "pathlib"):
+                c["load_via"] = rng.choice(["path", "fileobj", "pathlib"])
+        else:
+            c["carrier"] = way
+        cases.append(c)
+    return cases
+
+
 def judge_roundtrip(c, r):
     if "harness_error" in r:
         return "harness error " + r["harness_error"] + " " + r.get("tb", "")
@@ -615,7 +641,7 @@ def search_failing(ctx, k, n=400):
         bad = judge_resolve(c, r, k)
         if bad:
             return bad, c
-    rt = gen_tiny(k) + gen_carriers(ctx.rng, 12, k) + gen_roundtrip(ctx.rng, n, k, big=False)
+    rt = gen_tiny(k) + gen_compressible(ctx.rng, 6) + gen_carriers(ctx.rng, 12, k) + gen_roundtrip(ctx.rng, n, k, big=False)
     for c, r in zip(rt, run_parallel(rt)):
         bad = judge_roundtrip(c, r)
         if bad:
@@ -735,7 +761,8 @@ def run(ctx):
     # 4. differential round trip of object graphs
     n_rt = 260 if quick else 3000
     n_car = 30 if quick else 300
-    rt = gen_roundtrip(ctx.rng, n_rt, k, big=True) + gen_carriers(ctx.rng, n_car, k) + gen_tiny(k) + lz4_cases()
+    rt = (gen_roundtrip(ctx.rng, n_rt, k, big=True) + gen_carriers(ctx.rng, n_car, k) + gen_tiny(k)
+          + gen_compressible(ctx.rng, 9 if quick else 60, with_lists=not quick) + lz4_cases())
     rtres = run_parallel(rt)
     kinds = {}
     size_dist, proto_dist, target_dist, codec_dist = {}, {}, {}, {}
@@ -757,7 +784,7 @@ def run(ctx):
             continue
         for kk, v in r.get("kinds", {}).items():
             kinds[kk] = kinds.get(kk, 0) + v
-        skey = "tiny" if isinstance(c["size"], dict) else c["size"]
+        skey = ("tiny" if "tiny" in c["size"] else "compressible") if isinstance(c["size"], dict) else c["size"]
         size_dist[skey] = size_dist.get(skey, 0) + 1
         proto_dist[str(c["proto"])] = proto_dist.get(str(c["proto"]), 0) + 1
         tkind = c.get("carrier") or c["target"]["k"]
